@@ -126,10 +126,13 @@ FnEval ==
   /\ wv' = IF fpos = req THEN req ELSE wv
   /\ UNCHANGED <<cfg, sel, cross, d1, req, fpos, phase, fden, fdpt, out, ready, q>>
 
+\* the wrapped function's own derivatives are switched; a function that provides
+\* derivatives answers for the point it sits at from the moment they are on
 FnDer(k, on) ==
   /\ phase = "active"
   /\ fden' = [fden EXCEPT ![k] = on]
-  /\ UNCHANGED <<cfg, sel, cross, d1, req, fpos, phase, wv, evpt, fdpt, out, ready, q>>
+  /\ fdpt' = IF on /\ ~fden[k] THEN [fdpt EXCEPT ![k] = fpos] ELSE fdpt
+  /\ UNCHANGED <<cfg, sel, cross, d1, req, fpos, phase, wv, evpt, out, ready, q>>
 
 \* the public call returns with outcome o ("ok" | "raise"); wvv = sample point of the value now reported
 End(o, wvv) ==
